@@ -543,7 +543,7 @@ def _do_cut(asm, toks, block, tmpl_line):
     src = Source.get(asm.repo, kv['path'])
     secs = _sections(block)
     if kind == 'type':
-        c = cut_item(src, kv.get('kind', 'enum'), kv['name'])
+        c = cut_item(src, kv.get('kind', 'enum'), kv['name'], int(kv.get('depth', '0')))
         text, hits = apply_rules(c.text, rules=['R5'])
         if 'derives' in kv:
             def repl(mm):
@@ -572,7 +572,24 @@ def _do_cut(asm, toks, block, tmpl_line):
         rules = None
         if 'rules' in kv:
             rules = [r for r in extract.ALL_RULES if ('-' + r) not in kv['rules'].split(',')]
-        text, hits = apply_rules(c.text, rules=rules, macros=asm.macros)
+        raw = c.text
+        pre_hits = {}
+        # //@subst_slice anchor=.. take=.. [end_anchor=..] [k=..] with="<code>": BEFORE any rule, the located part of the function is
+        # replaced by <code> (a call of a wrapper function whose body is that very part, cut as a slice and verified on its own);
+        # line structure is kept.  Applied back to front so that earlier spans stay valid.
+        spans = []
+        for tk, lines_, no in secs:
+            if tk[0] == 'subst_slice':
+                _, kv2 = _kv(tk[1:])
+                kv2.setdefault('name', kv['name'])
+                s_, e_ = _slice_span(raw, kv2)
+                spans.append((s_, e_, kv2['with'], kv2.get('label', kv2['anchor'][:30])))
+        for s_, e_, w_, lab_ in sorted(spans, reverse=True):
+            removed = raw[s_:e_]
+            raw = raw[:s_] + w_ + '\n' * removed.count('\n') + raw[e_:]
+            pre_hits['R16.part_replaced_by_call_of_its_slice_wrapper:' + lab_] = 1
+        text, hits = apply_rules(raw, rules=rules, macros=asm.macros)
+        hits.update(pre_hits)
     elif kind == 'slice':
         c, text, hits = _cut_slice(asm, src, kv)
     else:
@@ -625,7 +642,7 @@ def _finish_cut(asm, c, text, hits, kv, secs, kind):
     fname = kv.get('rename', kv.get('name', kv.get('label', 'slice')))
     for tk, lines_, no in secs:
         t0 = tk[0]
-        if t0 in ('replace', 'replace_chain', 'desugar_for', 'opaque_unsafe', 'bytelits', 'desugar_while_let'):
+        if t0 in ('replace', 'replace_chain', 'desugar_for', 'opaque_unsafe', 'bytelits', 'desugar_while_let', 'subst_slice'):
             continue
         if t0 == 'mutate':
             mutations.append((tk[1], tk[2], no))
@@ -891,7 +908,9 @@ def _apply_replace(text, tk, hits, no):
             a, b = idxmap[i], idxmap[i + len(needle) - 1] + 1
             if m[a] == CODE:
                 spans.append((a, b))
-        if (want == '*' and not spans) or (want != '*' and len(spans) != int(want)):
+        if want == '0+':
+            pass
+        elif (want == '*' and not spans) or (want != '*' and len(spans) != int(want)):
             raise CutError('stand-in lost: %r found %d times, expected %s (template line %d)' % (frm, len(spans), want, no))
         for a, b in reversed(spans):
             text = _sub(text, a, b, to)
@@ -904,7 +923,10 @@ def _apply_replace(text, tk, hits, no):
         if i < 0:
             break
         found.append(i)
-    if want == '*':
+    if want == '0+':
+        # an alternative stand-in: the expression may be written this way or another way that has its own stand-in
+        pass
+    elif want == '*':
         if not found:
             raise CutError('stand-in lost: %r not found (template line %d)' % (frm, no))
     elif len(found) != int(want):
@@ -936,18 +958,16 @@ def _record_cut(asm, c, hits, kv, fname, text):
         asm.hits_total[k] = asm.hits_total.get(k, 0) + v
 
 
-def _cut_slice(asm, src, kv):
-    """a statement / block / match arm / expression inside a function, located by a structural
-    anchor (a code substring) and the kind of balanced unit to take."""
-    f = cut_fn(src, kv['fn'], kv.get('impl'))
-    t = f.text
+def _slice_span(t, kv):
+    """locate a statement / block / match arm / expression / range inside the function text `t` by a structural anchor;
+    returns (start, end) offsets into `t`"""
     m = mask(t)
     k = int(kv.get('k', '1'))
     idx = -1
     for _ in range(k):
         idx = code_find(t, m, kv['anchor'], idx + 1)
         if idx < 0:
-            raise CutError('anchor lost: slice %s anchor %r in fn %s' % (kv.get('label'), kv['anchor'], kv['fn']))
+            raise CutError('anchor lost: slice %s anchor %r in fn %s' % (kv.get('label'), kv['anchor'], kv.get('fn', kv.get('name'))))
     take = kv.get('take', 'stmt')
     n = len(t)
     if take == 'arm':
@@ -1085,6 +1105,14 @@ def _cut_slice(asm, src, kv):
         e = j
     else:
         raise CutError('slice: unknown take=%s' % take)
+    return s, e
+
+
+def _cut_slice(asm, src, kv):
+    """a statement / block / match arm / expression inside a function, located by a structural
+    anchor (a code substring) and the kind of balanced unit to take."""
+    f = cut_fn(src, kv['fn'], kv.get('impl'))
+    s, e = _slice_span(f.text, kv)
     c = extract.Cut(src, f.start + s, f.start + e, 'slice', kv.get('label', kv['fn'] + '@' + kv['anchor'][:20]))
     # reborrow=a,b : names that are `&mut` references in the enclosing function (the wrapper declares them so); a macro-as-function
     # call then passes `&mut *a`
